@@ -70,6 +70,7 @@ type Outcome struct {
 // Exec is a resolved operation: operands and parameters are fixed, Run can be
 // executed any number of times (every run builds fresh closures).
 type Exec struct {
+	Kind   string
 	Desc   string
 	Recv   *Member
 	Mutual bool // the result has an unspecified order (compared as a set)
@@ -96,7 +97,7 @@ func Resolve(w *World, d OpDesc, client int) *Exec {
 		return resolveGrouper(w, d, recv, client)
 	case KView:
 		v := recv.V
-		return &Exec{Desc: fmt.Sprintf("m%d.view.items", recv.ID), Recv: recv, Run: func() *Outcome {
+		return &Exec{Kind: "view-items", Desc: fmt.Sprintf("m%d.view.items", recv.ID), Recv: recv, Run: func() *Outcome {
 			return &Outcome{Canon: strings.Join(viewObs(v), ",")}
 		}}
 	}
@@ -308,7 +309,7 @@ func resolveFrame(w *World, d OpDesc, recv *Member, client int) *Exec {
 		kind = "misc"
 	}
 	anyCol := func(i int) string { return names[p(i)%len(names)] }
-	ex := &Exec{Recv: recv}
+	ex := &Exec{Recv: recv, Kind: kind}
 	switch kind {
 	case "filter":
 		_, desc := clause(recv, d, 0, 0)
@@ -851,8 +852,9 @@ func aggsFor(names, typs, keys []string, d OpDesc) []qframe.Aggregation {
 func resolveGrouper(w *World, d OpDesc, recv *Member, client int) *Exec {
 	g := recv.G
 	id := fmt.Sprintf("m%d", recv.ID)
-	ex := &Exec{Recv: recv, Mutual: true}
+	ex := &Exec{Recv: recv, Mutual: true, Kind: "grouper-aggregate"}
 	if d.Kind%3 == 0 {
+		ex.Kind = "grouper-qframes"
 		ex.Desc = id + ".QFrames()"
 		ex.Run = func() *Outcome {
 			frames, err := g.QFrames()
